@@ -104,13 +104,32 @@ var subRaw = ev.Register("raw-exchanges",
 		req.WriteString("X-Verif-Req: raw\r\n\r\n")
 		req.WriteString(c.Body)
 		rw.Write(req.Bytes())
-		// half-close: the client has nothing more to send, so an announced but incomplete body ends in EOF
-		// at the proxy instead of keeping the handler waiting for bytes that will never come
-		if x, ok := rw.(interface{ CloseWrite() error }); ok {
-			x.CloseWrite()
-		}
+		// The client has nothing more to send. Saying so at once (half-close) would make net/http cancel the
+		// request's context before the origin's answer is in, and the origin-dependent paths would hardly ever
+		// run; never saying so would leave a handler that waits for an announced but incomplete body hanging.
+		// So: wait 300 ms for the answer, then half-close and keep waiting.
 		br := bufio.NewReader(rw)
-		resp, rerr := http.ReadResponse(br, &http.Request{Method: method})
+		type rr struct {
+			resp *http.Response
+			err  error
+		}
+		got := make(chan rr, 1)
+		go func() {
+			resp, err := http.ReadResponse(br, &http.Request{Method: method})
+			got <- rr{resp, err}
+		}()
+		var res rr
+		select {
+		case res = <-got:
+			o.Class("answered-before-half-close")
+		case <-time.After(300 * time.Millisecond):
+			if x, ok := rw.(interface{ CloseWrite() error }); ok {
+				x.CloseWrite()
+			}
+			res = <-got
+			o.Class("answered-after-half-close")
+		}
+		resp, rerr := res.resp, res.err
 		time.Sleep(time.Millisecond)
 		reached := metrics.Global.Requests.HTTPProxyRequests.Get() > before
 		o.Classf("reached-handler:%v", reached)
